@@ -359,6 +359,36 @@ def zero_rejecting_params(h):
     """Indices of the parameters p of h for which h's body has `if p == 0 { return Err(..) }` (then-branch diverging)."""
     out = set()
     pid = {p["id"]: i for i, p in enumerate(h["params"]) if p.get("k") == "PBind"}
+    # path by path: every path that answers Ok has found the parameter different from 0 (`if p != 0 { return Ok(()) }
+    # .. Err(..)`, `if p == 0 { return Err(..) }`, `p > 0`), and some path answers Err
+    try:
+        paths = hirq.exits(hirq.PathEnum(h).paths())
+    except hirq.TooManyPaths:
+        paths = []
+    for lid, i in pid.items():
+        oks_tested, oks, errs = 0, 0, 0
+        for (ev, o) in paths:
+            v = hirq.path_value(ev)
+            v = peel(v) if v is not None else None
+            is_ok = v is not None and kind(v) == "Call" and callee(v) == "core::result::Result::Ok"
+            is_err = v is not None and kind(v) == "Call" and callee(v) == "core::result::Result::Err"
+            nonzero = False
+            for e in ev:
+                if e.kind != "cond":
+                    continue
+                cnd, truth = peel(e.node), bool(e.extra)
+                while kind(cnd) == "Unary" and cnd.get("op") == "!":
+                    cnd, truth = peel(cnd["e"]), not truth
+                if kind(cnd) == "Binary" and hirq.local_id(cnd["l"]) == lid and hirq.lit_value(cnd["r"]) == 0:
+                    if (cnd["op"] in ("!=", ">") and truth) or (cnd["op"] == "==" and not truth):
+                        nonzero = True
+            if is_ok:
+                oks += 1
+                oks_tested += 1 if nonzero else 0
+            if is_err:
+                errs += 1
+        if oks and errs and oks == oks_tested:
+            out.add(i)
     for x in walk(h["body"]):
         if kind(x) == "If" and hirq.diverges(x["then"]):
             c = peel(x["cond"])
